@@ -309,49 +309,117 @@ func (L *lruCtx) touch() {
 	}
 }
 
-// costTerms: decomposes e into a sorted list of term kinds: "size" (load of an item's size field), global names, "?".
-func (L *lruCtx) costTerms(e ssa.Value) (terms []string, item ssa.Value) {
-	var visit func(v ssa.Value)
-	visit = func(v ssa.Value) {
-		v = peelConv(v)
-		switch x := v.(type) {
-		case *ssa.BinOp:
-			if x.Op == token.ADD {
-				visit(x.X)
-				visit(x.Y)
-				return
-			}
-		case *ssa.UnOp:
-			if x.Op == token.MUL {
-				if g, ok := x.X.(*ssa.Global); ok {
-					terms = append(terms, g.Name())
-					return
-				}
-				if fa, ok := x.X.(*ssa.FieldAddr); ok && fieldOf(fa.X.Type(), fa.Field) == L.itSize {
-					terms = append(terms, "size")
-					item = fa.X
-					return
-				}
-			}
-		case *ssa.Const:
-			terms = append(terms, "const:"+x.Value.ExactString())
+// A costTerm is one signed summand of a byte-counter update.
+type costTerm struct {
+	sign int
+	kind string    // "size", a global's name, "const:…", "?"
+	item ssa.Value // for size terms: the item whose size is read
+	load ssa.Instruction
+	when string // for size terms: "old" (read before the item's size is overwritten in this call), "new" (after), "" (item's size is not written here)
+}
+
+// signedTerms decomposes e (to be added with the given sign) into summands; calls to small module helpers are expanded.
+func (L *lruCtx) signedTerms(e ssa.Value, sign int, at ssa.Instruction, bind map[ssa.Value]ssa.Value, depth int, out *[]costTerm) {
+	e = peelConv(e)
+	if b, ok := bind[e]; ok {
+		e = b
+	}
+	switch x := e.(type) {
+	case *ssa.BinOp:
+		if x.Op == token.ADD {
+			L.signedTerms(x.X, sign, at, bind, depth, out)
+			L.signedTerms(x.Y, sign, at, bind, depth, out)
 			return
 		}
-		terms = append(terms, "?")
+		if x.Op == token.SUB {
+			L.signedTerms(x.X, sign, at, bind, depth, out)
+			L.signedTerms(x.Y, -sign, at, bind, depth, out)
+			return
+		}
+	case *ssa.UnOp:
+		if x.Op == token.MUL {
+			if g, ok := x.X.(*ssa.Global); ok {
+				*out = append(*out, costTerm{sign: sign, kind: g.Name()})
+				return
+			}
+			if fa, ok := x.X.(*ssa.FieldAddr); ok && fieldOf(fa.X.Type(), fa.Field) == L.curSize {
+				*out = append(*out, costTerm{sign: sign, kind: "counter"})
+				return
+			}
+			if fa, ok := x.X.(*ssa.FieldAddr); ok && fieldOf(fa.X.Type(), fa.Field) == L.itSize {
+				item := fa.X
+				if b, ok := bind[item]; ok {
+					item = b
+				}
+				pos := ssa.Instruction(x)
+				if at != nil && x.Parent() != at.Parent() {
+					pos = at // a load inside an expanded helper happens at the call
+				}
+				*out = append(*out, costTerm{sign: sign, kind: "size", item: peel(item), load: pos})
+				return
+			}
+		}
+	case *ssa.Const:
+		*out = append(*out, costTerm{sign: sign, kind: "const:" + x.Value.ExactString()})
+		return
+	case *ssa.Call:
+		if f := calleeFunc(&x.Call); f != nil && depth < 3 && L.c.w.inModule(f) && f.Blocks != nil && len(f.Blocks) == 1 {
+			if ret, ok := f.Blocks[0].Instrs[len(f.Blocks[0].Instrs)-1].(*ssa.Return); ok && len(ret.Results) == 1 {
+				b2 := map[ssa.Value]ssa.Value{}
+				for k, p := range f.Params {
+					if k < len(x.Call.Args) {
+						b2[p] = x.Call.Args[k]
+					}
+				}
+				L.signedTerms(ret.Results[0], sign, x, b2, depth+1, out)
+				return
+			}
+		}
 	}
-	visit(e)
-	sort.Strings(terms)
-	return
+	*out = append(*out, costTerm{sign: sign, kind: "?"})
 }
 
 func (L *lruCtx) account() {
 	const rule = "C07.account"
 	c := L.c
 	put := c.a.LRUPut
+	// stores to item.size in Put (to tell old from new size reads)
+	var sizeStores []*ssa.Store
+	allInstrs(put, func(i ssa.Instruction) {
+		if st, ok := i.(*ssa.Store); ok {
+			if fa, ok := st.Addr.(*ssa.FieldAddr); ok && fieldOf(fa.X.Type(), fa.Field) == L.itSize {
+				sizeStores = append(sizeStores, st)
+			}
+		}
+	})
+	when := func(t costTerm) string {
+		for _, st := range sizeStores {
+			fa := st.Addr.(*ssa.FieldAddr)
+			if peel(fa.X) != t.item || t.load == nil || t.load.Parent() != st.Parent() {
+				continue
+			}
+			if _, isAlloc := t.item.(*ssa.Alloc); isAlloc {
+				continue // a new item: its size is initialised, not overwritten
+			}
+			lb, sb := t.load.Block(), st.Block()
+			switch {
+			case lb == sb:
+				if pointOf(t.load).i < pointOf(st).i {
+					return "old"
+				}
+				return "new"
+			case lb.Dominates(sb):
+				return "old"
+			case sb.Dominates(lb):
+				return "new"
+			}
+		}
+		return ""
+	}
 	type upd struct {
 		st    *ssa.Store
-		op    token.Token
-		terms string
+		terms []costTerm
+		desc  string
 	}
 	var upds []upd
 	for _, fn := range []*ssa.Function{put, c.a.LRUGet} {
@@ -364,32 +432,125 @@ func (L *lruCtx) account() {
 			if !ok || fieldOf(fa.X.Type(), fa.Field) != L.curSize {
 				return
 			}
-			b, ok := st.Val.(*ssa.BinOp)
-			if !ok || (b.Op != token.ADD && b.Op != token.SUB) || srcField(b.X) != L.curSize {
-				c.r.bad(rule, safeFname(fn)+": counter update", "the byte counter is assigned something other than counter ± cost(item)", []string{c.w.ipos(i)})
-				return
+			var terms []costTerm
+			L.signedTerms(st.Val, +1, nil, map[ssa.Value]ssa.Value{}, 0, &terms)
+			// remove the counter itself (+curSize); anything else than exactly one such term is an unknown shape
+			var rest []costTerm
+			self := 0
+			for _, t := range terms {
+				if t.kind == "counter" {
+					if t.sign > 0 {
+						self++
+					} else {
+						self += 100
+					}
+					continue
+				}
+				rest = append(rest, t)
 			}
-			terms, _ := L.costTerms(b.Y)
-			upds = append(upds, upd{st, b.Op, strings.Join(terms, "+")})
+			if self != 1 {
+				rest = append(rest, costTerm{sign: 1, kind: "?"})
+			}
+			upds = append(upds, upd{st: st, terms: rest})
 		})
 	}
 	if len(upds) < 2 {
 		c.r.bad(rule, "counter updates", fmt.Sprintf("only %d update(s) of the byte counter found: additions and subtractions cannot balance", len(upds)), []string{c.w.pos(put.Pos())})
 		return
 	}
-	ref := upds[0].terms
-	adds, subs := 0, 0
-	for k, u := range upds {
-		if u.op == token.ADD {
-			adds++
-		} else {
-			subs++
+	// classify each update by its signed summands
+	overhead := func(ts []costTerm, sign int) string {
+		var g []string
+		for _, t := range ts {
+			if t.sign == sign && t.kind != "size" && t.kind != "counter" {
+				g = append(g, t.kind)
+			}
 		}
-		okT := u.terms == ref && strings.Contains(u.terms, "size") && !strings.Contains(u.terms, "?")
-		c.r.check(okT, rule, fmt.Sprintf("counter update#%d (%s)", k+1, u.op), "cost(item) = "+u.terms,
-			fmt.Sprintf("this update uses cost %q while another uses %q: what is added for an item is not what is subtracted for it, the counter drifts and the byte bound no longer holds", u.terms, ref), c.w.ipos(u.st))
+		sort.Strings(g)
+		return strings.Join(g, "+")
 	}
-	c.r.check(adds > 0 && subs > 0, rule, "counter updates", fmt.Sprintf("%d additions, %d subtractions", adds, subs), "the byte counter is only ever increased or only ever decreased", c.w.pos(put.Pos()))
+	var insertOH, evictOH []string
+	nPlus, nMinus := 0, 0
+	for k := range upds {
+		u := &upds[k]
+		key := fmt.Sprintf("counter update#%d", k+1)
+		var plusSize, minusSize []costTerm
+		unknown := false
+		for i := range u.terms {
+			t := &u.terms[i]
+			if t.kind == "size" {
+				t.when = when(*t)
+				if t.sign > 0 {
+					plusSize = append(plusSize, *t)
+				} else {
+					minusSize = append(minusSize, *t)
+				}
+			}
+			if t.kind == "?" {
+				unknown = true
+			}
+		}
+		var parts []string
+		for _, t := range u.terms {
+			sg := "+"
+			if t.sign < 0 {
+				sg = "-"
+			}
+			w := ""
+			if t.when != "" {
+				w = "(" + t.when + ")"
+			}
+			parts = append(parts, sg+t.kind+w)
+		}
+		u.desc = strings.Join(parts, " ")
+		switch {
+		case unknown:
+			c.r.bad(rule, key, "the byte counter is updated with an expression the rule cannot decompose into item size and overhead constants ("+u.desc+")", []string{c.w.ipos(u.st)})
+		case len(plusSize) == 1 && len(minusSize) == 0:
+			nPlus++
+			if plusSize[0].when == "old" {
+				c.r.bad(rule, key, "the cost added for an entry is computed from the size it had before it was overwritten ("+u.desc+")", []string{c.w.ipos(u.st)})
+				continue
+			}
+			insertOH = append(insertOH, overhead(u.terms, +1))
+			if overhead(u.terms, -1) != "" {
+				c.r.bad(rule, key, "an addition also subtracts overhead constants ("+u.desc+")", []string{c.w.ipos(u.st)})
+				continue
+			}
+			c.r.ok(rule, key, "adds cost(item): "+u.desc, c.w.ipos(u.st))
+		case len(minusSize) == 1 && len(plusSize) == 0:
+			nMinus++
+			if minusSize[0].when == "new" {
+				c.r.bad(rule, key, "the cost subtracted for an overwritten entry is computed from its new size, not from the size that was added earlier ("+u.desc+"): the counter drifts and the byte bound no longer holds", []string{c.w.ipos(u.st)})
+				continue
+			}
+			evictOH = append(evictOH, overhead(u.terms, -1))
+			if overhead(u.terms, +1) != "" {
+				c.r.bad(rule, key, "a subtraction also adds overhead constants ("+u.desc+")", []string{c.w.ipos(u.st)})
+				continue
+			}
+			c.r.ok(rule, key, "subtracts cost(item): "+u.desc, c.w.ipos(u.st))
+		case len(plusSize) == 1 && len(minusSize) == 1:
+			// combined overwrite: + new size − old size, overheads must cancel
+			nPlus++
+			nMinus++
+			okD := plusSize[0].when != "old" && minusSize[0].when == "old" && plusSize[0].item == minusSize[0].item && overhead(u.terms, +1) == overhead(u.terms, -1)
+			c.r.check(okD, rule, key, "adjusts by new size − old size: "+u.desc,
+				"an overwrite adjusts the counter by something other than (size after) − (size before) of the same item ("+u.desc+"): the counter no longer equals the sum of the stored entries", c.w.ipos(u.st))
+		default:
+			c.r.bad(rule, key, "unexpected combination of size terms in a counter update ("+u.desc+")", []string{c.w.ipos(u.st)})
+		}
+	}
+	okOH := len(insertOH) > 0 && len(evictOH) > 0
+	for _, a := range insertOH {
+		for _, b := range evictOH {
+			if a != b {
+				okOH = false
+			}
+		}
+	}
+	c.r.check(okOH && nPlus > 0 && nMinus > 0, rule, "counter updates", fmt.Sprintf("%d additions and %d subtractions with the same overhead constants", nPlus, nMinus),
+		fmt.Sprintf("additions use overhead %v, subtractions %v: what is added for an item is not what is subtracted when it leaves, so the counter drifts", insertOH, evictOH), c.w.pos(put.Pos()))
 	// size recorded whenever a bitmap is stored into an item
 	n := 0
 	allInstrs(put, func(i ssa.Instruction) {
@@ -423,47 +584,6 @@ func (L *lruCtx) account() {
 		c.r.check(okSize, rule, fmt.Sprintf("%s: bitmap store#%d", safeFname(put), n), "item.size = bm.GetSizeInBytes() for the stored bitmap",
 			"a bitmap is stored into a cache item without setting the item's size to that bitmap's size: the accounting keeps the old size (overwriting a small entry with a large bitmap escapes the byte bound)", c.w.ipos(st))
 	})
-	// the added cost must be computed from the size AFTER it was updated, the subtracted one from the size BEFORE: check
-	// that every ADD whose item has a size store in the same block comes after it, every SUB before it
-	for k, u := range upds {
-		b := u.st.Val.(*ssa.BinOp)
-		_, item := L.costTerms(b.Y)
-		if item == nil {
-			continue
-		}
-		var sizeLoad ssa.Instruction
-		var visit func(v ssa.Value)
-		visit = func(v ssa.Value) {
-			v = peelConv(v)
-			if x, ok := v.(*ssa.BinOp); ok {
-				visit(x.X)
-				visit(x.Y)
-			}
-			if x, ok := v.(*ssa.UnOp); ok {
-				if fa, ok := x.X.(*ssa.FieldAddr); ok && fieldOf(fa.X.Type(), fa.Field) == L.itSize {
-					sizeLoad = x
-				}
-			}
-		}
-		visit(b.Y)
-		allInstrs(put, func(j ssa.Instruction) {
-			s2, ok := j.(*ssa.Store)
-			if !ok || sizeLoad == nil {
-				return
-			}
-			fa2, ok := s2.Addr.(*ssa.FieldAddr)
-			if !ok || fieldOf(fa2.X.Type(), fa2.Field) != L.itSize || peel(fa2.X) != peel(item) || s2.Block() != sizeLoad.Block() {
-				return
-			}
-			before := pointOf(sizeLoad).i < pointOf(s2).i
-			if u.op == token.ADD && before {
-				c.r.bad(rule, fmt.Sprintf("counter update#%d (%s)", k+1, u.op), "the cost added for an overwritten entry is computed from its old size", []string{c.w.ipos(u.st)})
-			}
-			if u.op == token.SUB && !before {
-				c.r.bad(rule, fmt.Sprintf("counter update#%d (%s)", k+1, u.op), "the cost subtracted for an overwritten entry is computed from its new size", []string{c.w.ipos(u.st)})
-			}
-		})
-	}
 	// eviction loop
 	var cmpI *ssa.BinOp
 	allInstrs(put, func(i ssa.Instruction) {
@@ -526,7 +646,13 @@ func (L *lruCtx) account() {
 		"the eviction loop is not `while counter > capacity and list non-empty: remove back`: it can stop while the cache is still over its byte bound", c.w.ipos(cmpI))
 	// every increase reaches the loop test
 	for k, u := range upds {
-		if u.op != token.ADD || u.st.Parent() != put {
+		inc := false
+		for _, t := range u.terms {
+			if t.kind == "size" && t.sign > 0 {
+				inc = true
+			}
+		}
+		if !inc || u.st.Parent() != put {
 			continue
 		}
 		if p := c.fc.pathAvoiding(put, u.st, func(i ssa.Instruction) bool { _, ok := i.(*ssa.Return); return ok }, func(i ssa.Instruction) bool { return i == ssa.Instruction(cmpI) }); p != nil {
